@@ -4,15 +4,12 @@ package bitcoin
 
 import "gitlab.com/yawning/secp256k1-voi"
 
+// All hooks of this package are optional (see zz_verif_opt_*.go).
 var (
 	VerifSignSchnorr       func(aux *[32]byte, sk *SchnorrPrivateKey, msg []byte) ([]byte, error)
 	VerifVerifySchnorrSelf func(d *secp256k1.Scalar, pkXBytes, msg, sig []byte) bool
-)
 
-// VerifSchnorrPrivInternals exposes (dPrime, d, publicKey); core: field access only.
-func VerifSchnorrPrivInternals(k *SchnorrPrivateKey) (*secp256k1.Scalar, *secp256k1.Scalar, *SchnorrPublicKey) {
-	return k.dPrime, k.d, k.publicKey
-}
-func VerifSchnorrPubInternals(k *SchnorrPublicKey) (*secp256k1.Point, []byte) {
-	return k.point, k.xBytes
-}
+	// Field access (layout dependent): (dPrime, d, publicKey) and (point, xBytes).
+	VerifSchnorrPrivInternals func(k *SchnorrPrivateKey) (*secp256k1.Scalar, *secp256k1.Scalar, *SchnorrPublicKey)
+	VerifSchnorrPubInternals  func(k *SchnorrPublicKey) (*secp256k1.Point, []byte)
+)
